@@ -505,6 +505,25 @@ type decodeDoc struct {
 	gob  []byte
 	wj   string
 	wg   string
+	rt   reflect.Type // the struct type of the encoded value: its own UnmarshalJSON / GobDecode methods are decoders too
+	wmj  string
+	wmg  string
+}
+
+// decMethod decodes through the type's own method (json.Unmarshaler / gob.GobDecoder) into a fresh value
+func decMethod(rt reflect.Type, method string, b []byte) string {
+	return guard(func() string {
+		pv := reflect.New(rt)
+		m := pv.MethodByName(method)
+		if !m.IsValid() {
+			return "no-method"
+		}
+		out := m.Call([]reflect.Value{reflect.ValueOf(b)})
+		if len(out) == 1 && !out[0].IsNil() {
+			return "err:" + out[0].Interface().(error).Error()
+		}
+		return CoqItem(pv.Interface())
+	})
 }
 
 func decJSON(b []byte) string {
@@ -533,7 +552,8 @@ func c12Docs(g *Gen, n int) []decodeDoc {
 		o := DefaultOpts()
 		o.NilEntries = false
 		o.ValueForms = false
-		it := g.Struct(structTypes[g.Intn(len(structTypes))], o)
+		// every struct type in turn (two documents each): two decoders must be able to meet inside the SAME type's methods
+		it := g.Struct(structTypes[(len(docs)/2)%len(structTypes)], o)
 		var d decodeDoc
 		func() {
 			defer func() { _ = recover() }()
@@ -544,6 +564,8 @@ func c12Docs(g *Gen, n int) []decodeDoc {
 			continue
 		}
 		d.wj, d.wg = decJSON(d.json), decGob(d.gob)
+		d.rt = reflect.TypeOf(it).Elem()
+		d.wmj, d.wmg = decMethod(d.rt, "UnmarshalJSON", d.json), decMethod(d.rt, "GobDecode", d.gob)
 		docs = append(docs, d)
 	}
 	return docs
@@ -591,9 +613,15 @@ func concurrentRun(values, others []ap.Item, docs []decodeDoc, ops []c12op, work
 				slot := workers + d
 				for r := 0; r < rounds; r++ {
 					for k := range docs {
-						doc := docs[(k+d*3+r)%len(docs)]
+						doc := docs[(k+d+r)%len(docs)] // neighbours in the list are of the same type
 						gj, gg := decJSON(doc.json), decGob(doc.gob)
-						counts[slot] += 2
+						counts[slot] += 4
+						if mj := decMethod(doc.rt, "UnmarshalJSON", doc.json); mj != doc.wmj && len(found[slot]) < 3 {
+							found[slot] = append(found[slot], concMismatch{Value: vi, Op: doc.rt.Name() + ".UnmarshalJSON (unrelated document)", Expected: clip(doc.wmj, 400), Observed: clip(mj, 400), Input: clip(string(doc.json), 1500)})
+						}
+						if mg := decMethod(doc.rt, "GobDecode", doc.gob); mg != doc.wmg && len(found[slot]) < 3 {
+							found[slot] = append(found[slot], concMismatch{Value: vi, Op: doc.rt.Name() + ".GobDecode (unrelated document)", Expected: clip(doc.wmg, 400), Observed: clip(mg, 400), Input: fmt.Sprintf("%x", doc.gob)})
+						}
 						if gj != doc.wj && len(found[slot]) < 3 {
 							found[slot] = append(found[slot], concMismatch{Value: vi, Op: "UnmarshalJSON (unrelated document)", Expected: clip(doc.wj, 400), Observed: clip(gj, 400), Input: clip(string(doc.json), 1500)})
 						}
@@ -650,7 +678,7 @@ func c12SharedValues(seed int64, n int) (vals, others []ap.Item, docs []decodeDo
 		vals = append(vals, c12Value(g, i+4))
 		others = append(others, c12Value(g, i+5))
 	}
-	return vals, others, c12Docs(NewGen(seed, "C12docs"), 6)
+	return vals, others, c12Docs(NewGen(seed, "C12docs"), 2*len(structTypes))
 }
 
 // child process (built with -race): only the concurrency run
